@@ -346,20 +346,32 @@ def rule_r6_aggregation(ctx: Ctx) -> None:
         if "deprecated" in sub.methods:
             ctx.fail(sub.short + ".deprecated", "override", "deprecation must not be overridden in subclasses", where=sub.module.relpath)
 
-    # CompositeType.__init__: every attribute is checked, failure raises
-    init = comp.methods["__init__"]
-    paths = paths_of(init.node, opaque=["used_names"])
-    found = False
-    for p in paths:
-        if p.kind == "raise" and _raises_ide(ctx, init, p.value):
-            loops = [c for c, pol in p.conds if isinstance(c, tuple) and c[0] == "for" and pol]
-            real = [(c, pol) for c, pol in p.conds if not isinstance(c, tuple)]
-            if loops and real:
-                last, pol = real[-1]
-                s = norm(last)
-                if pol and s == "%s.data_type._check_aggregation(self) is not None" % loops[-1][1] and norm(loops[-1][2]) in ("self._attributes", "list(attributes)", "self.attributes"):
-                    found = True
-    ctx.check(found, init.short, "aggregation check over all attributes", "every attribute's type must be checked for placement and a failure must reject the definition", init.where())
+    # CompositeType.__init__: every attribute is checked, failure raises - observed on constructed composites whose attribute
+    # types record the question and answer it with a failure for one of them
+    from ..absint import Recorder
+    from ..fold import Sym
+    from . import c05 as M
+
+    init = comp.methods.get("__init__")
+    bad = []
+    for n_attrs in (1, 3):
+        for failing in [None] + list(range(n_attrs)):
+            attrs = []
+            for i in range(n_attrs):
+                a = M.attribute_sym(ctx, "Field" if i != 1 else "Constant", "a%d" % i)
+                a.data_type._check_aggregation = Recorder("check%d" % i, Sym(message="not here", _kind_="AggregationFailure") if i == failing else None)
+                attrs.append(a)
+            o = M.structure(ctx, attributes=attrs)
+            ctx.count()
+            asked = [len(a.data_type._check_aggregation.log) for a in attrs]
+            asked_with_self = all((not isinstance(o, str) and args and args[0] is o) or isinstance(o, str) for a in attrs for _, args, _ in a.data_type._check_aggregation.log)
+            if failing is None:
+                okk = not isinstance(o, str) and asked == [1] * n_attrs and asked_with_self
+            else:
+                okk = o == "AggregationError" and asked[failing] == 1 and all(x == 1 for x in asked[:failing])
+            if not okk:
+                bad.append({"attributes": n_attrs, "the type that objects": failing, "outcome": o if isinstance(o, str) else "accepted", "times each type was asked": asked})
+    ctx.check(not bad and M._ide_name(ctx, "AggregationError"), comp.short + ".__init__", "aggregation check over all attributes", "every attribute's type must be checked for placement and a failure must reject the definition", init.where() if init else comp.module.relpath, bad[:3])
 
 
 # ---------------------------------------------------------------------------------------------------- R7
